@@ -88,7 +88,16 @@ func DrawTV(t *rapid.T, s *Schema, typ string, label string) TV {
 		tv := TV{K: "map", Items: []TV{}, Keys: []string{}}
 		seen := map[string]bool{}
 		for i := 0; i < n; i++ {
-			k := rapid.SampledFrom([]string{"k", "a", "b", "zz", "", "k2", "0"}).Draw(t, label+".key")
+			k := ""
+			if ty.Key != "" {
+				names := []string{}
+				for _, e := range s.Type(ty.Key).Enum {
+					names = append(names, e.Name)
+				}
+				k = rapid.SampledFrom(names).Draw(t, label+".key")
+			} else {
+				k = rapid.SampledFrom([]string{"k", "a", "b", "zz", "", "k2", "0"}).Draw(t, label+".key")
+			}
 			if seen[k] {
 				continue
 			}
@@ -153,6 +162,19 @@ func (tv TV) Exercises(s *Schema, typ string, into map[string]bool) {
 		}
 		tv.Items[0].Exercises(s, ty.Members[tv.Member].Type, into)
 	}
+}
+
+// ReprKey is the representation-level form of a typed map's key (the key type's own representation).
+func (s *Schema) ReprKey(ty *TypeSpec, key string) string {
+	if ty.Key == "" {
+		return key
+	}
+	for _, m := range s.Type(ty.Key).Enum {
+		if m.Name == key {
+			return m.Str
+		}
+	}
+	return key
 }
 
 // TypeView is what the type-level node must read as. Absent struct fields are Absent markers.
@@ -230,7 +252,7 @@ func ReprView(s *Schema, typ string, tv TV) (val.V, bool) {
 			if !ok {
 				return val.V{}, false
 			}
-			out.Ents = append(out.Ents, val.Ent{K: tv.Keys[i], V: r})
+			out.Ents = append(out.Ents, val.Ent{K: s.ReprKey(ty, tv.Keys[i]), V: r})
 		}
 		return out, true
 	case "struct":
@@ -404,7 +426,24 @@ func Parse(s *Schema, typ string, lvl Level, v val.V, nullable bool) (TV, error)
 			if err != nil {
 				return TV{}, err
 			}
-			tv.Keys = append(tv.Keys, e.K)
+			key := e.K
+			if ty.Key != "" {
+				// the key is a member of the key enum: by name at type level, by its representation string below
+				found := false
+				for _, m := range s.Type(ty.Key).Enum {
+					w := m.Name
+					if lvl == ReprLevel {
+						w = m.Str
+					}
+					if w == e.K {
+						key, found = m.Name, true
+					}
+				}
+				if !found {
+					return TV{}, reject("map key %q is not a member of enum %s", e.K, ty.Key)
+				}
+			}
+			tv.Keys = append(tv.Keys, key)
 			tv.Items = append(tv.Items, x)
 		}
 		return tv, nil
@@ -717,7 +756,7 @@ func SortMapsBy(s *Schema, typ string, tv TV, less func(a, b string) bool) TV {
 			idx[i] = i
 		}
 		for i := 1; i < len(idx); i++ {
-			for j := i; j > 0 && less(tv.Keys[idx[j]], tv.Keys[idx[j-1]]); j-- {
+			for j := i; j > 0 && less(s.ReprKey(ty, tv.Keys[idx[j]]), s.ReprKey(ty, tv.Keys[idx[j-1]])); j-- {
 				idx[j], idx[j-1] = idx[j-1], idx[j]
 			}
 		}
